@@ -9,6 +9,8 @@ import KoordVerif.Proofs.C11ExtScan
 import KoordVerif.Proofs.C11ExtRounds
 import KoordVerif.Model.C11Metric
 import KoordVerif.Proofs.C11ExtMetric
+import KoordVerif.Model.C11Containers
+import KoordVerif.Proofs.C11ExtContainers
 /-
 C11 — property theorems (DESIGN.md §4 C11).
 
@@ -22,6 +24,7 @@ All statements hold for every task list, every `IsPodEvicted` answer and every s
 Part B: victim selection and order.  Part D: decoding of labels / annotations.  Part C: several rounds against
 the real executor (Evictor TTL cache + DefaultEvictionExecutor).  Part E: memoryEvict() / cpuEvict() end to end.
 Part F: the metric glue (CollectPodMetricLast on the metric cache) that decides whether a pod is "measured".
+Part G: the container loops behind a pod's mid / batch request.
 -/
 namespace KoordVerif.C11
 
@@ -1138,5 +1141,35 @@ example :
                         allocMem := none, allocBatch := none, allocMid := none }
     ((memoryEvict (fun _ _ _ _ => none) c (src.map (PodSrc.pod 2000)) (fun _ => false) []).map
         fun st => st.logRev.map fun ev => (ev.e.pod, ev.kind)) = some [(1, .ok)] := by decide
+
+/-! ## Part G — the container loops behind a pod's mid / batch request (Model/C11Containers.lean) -/
+
+/-- G.1 the extended-resource request of a pod (what the allocatable features sum per class for their target, credit
+    per victim and sort by; what BECPUEvict credits) is the sum over the containers that run side by side —
+    regular containers and sidecar init containers — of the container's request, an absent or non-positive
+    request counting 0. -/
+theorem ext_request_is_sum_over_concurrent_containers (get : Ctr → Int) (cs : List Ctr) :
+    ctrSum get cs = (cs.map (ctrShare get)).sum := by
+  induction cs with
+  | nil => simp [ctrSum_nil]
+  | cons c cs ih => rw [ctrSum_cons, ih]; simp
+
+/-- G.2 an init container that runs to completion (or any unknown kind) contributes nothing; a regular or sidecar
+    container contributes exactly its clamped request. -/
+theorem container_share (get : Ctr → Int) (c : Ctr) (cs : List Ctr) :
+    ctrSum get (c :: cs) =
+      (if c.kind = 0 ∨ c.kind = 2 then (if get c ≤ 0 then 0 else get c) else 0) + ctrSum get cs := by
+  rw [ctrSum_cons]; rfl
+
+/-- G.3 never negative, so a credited release never shrinks what was released before. -/
+theorem ext_request_nonneg (get : Ctr → Int) (cs : List Ctr) : 0 ≤ ctrSum get cs := by
+  induction cs with
+  | nil => simp [ctrSum_nil]
+  | cons c cs ih =>
+    rw [ctrSum_cons]
+    have : 0 ≤ ctrShare get c := by unfold ctrShare; split; exact clamp0_nonneg _; omega
+    omega
+
+example : ctrSum Ctr.batch [⟨0, -1, 300⟩, ⟨1, -1, 900⟩, ⟨2, -1, 200⟩, ⟨0, 50, -1⟩, ⟨0, -1, 0⟩] = 500 := by decide
 
 end KoordVerif.C11
